@@ -90,11 +90,12 @@ Lemma zs_object fs : zshape (zod_object fs) =
                                              | None => [(L "...", ShBad (L "spread"))] end) fs).
 Proof. reflexivity. Qed.
 
-Lemma keys_fields m (f : mapping -> member -> option key * ex) (Hf : forall x, fst (f m x) = Some (KeyId (m_key x))) fs :
-  keys_of (zshape (zod_object (map (f m) fs))) = map m_key fs.
+Definition key_str (k : str) : str := key_text (mk_key k).
+Lemma keys_fields m (f : mapping -> member -> option key * ex) (Hf : forall x, fst (f m x) = Some (mk_key (m_key x))) fs :
+  keys_of (zshape (zod_object (map (f m) fs))) = map (fun x => key_str (m_key x)) fs.
 Proof.
   rewrite zs_object. cbn [keys_of]. induction fs as [|x r IH]; [reflexivity|].
-  cbn [map flat_map]. rewrite Hf. cbn [app map fst key_text]. f_equal. exact IH.
+  cbn [map flat_map]. rewrite Hf. cbn [app map fst]. f_equal. exact IH.
 Qed.
 Lemma keys_struct m s :
   keys_of (zshape (zod_object (map (zod_field m) (s_fields s)))) = member_keys (map (plain_member m) (s_fields s)).
